@@ -546,6 +546,16 @@ def _compare_run(ref, cand, D, eps, lowrank, lead_ref, lead_cand, tally, skip_pa
                     if owner in excused or "?" in excused:
                         tally["excused_by_flip"] = tally.get("excused_by_flip", 0) + 1
                         continue
+                r_ = abs(lowrank[0])
+                if (r_ and cat == "preconditioners" and a.ndim == 2 and a.shape == b.shape and a.shape[1] == r_ + 2
+                        and a.shape[0] > r_ + 2 and a.tobytes() != b.tobytes()):
+                    # packed low-rank root: the first |rank| columns are eigenvectors, each determined up to its sign
+                    # (v and -v denote the same matrix v v^T); compare modulo that sign
+                    for j in range(r_):
+                        if float(np.dot(a[:, j].astype(np.float64), b[:, j].astype(np.float64))) < 0:
+                            b = b.copy()
+                            b[:, j] = -b[:, j]
+                            tally["eigvec_sign_aligned"] = tally.get("eigvec_sign_aligned", 0) + 1
                 status, det = _cmp_leaf(cat, a, b, kappa, slack)
                 tally["leaves"] = tally.get("leaves", 0) + 1
                 tally[status] = tally.get(status, 0) + 1
@@ -1192,6 +1202,8 @@ def _run_rest(ctx):
         "statistics of the owning parameter at that step (TOL(eps*kappa) of DESIGN 2.3), for low-rank kinds also 10 * lambda_max / smallest eigenvalue gap at the retained end of the spectrum (top |rank| eigenvalues and the cut for rank > 0, bottom for rank < 0, every gap for frequent directions), worst over the steps so far because a preconditioner stays in use until the next refresh and the momentum carries it (a degenerate eigenvalue makes the stored eigenvector arbitrary within its eigenspace: observed 29% legit difference of the packed root, both packed roots being valid); error metrics absolute 1e-4 * max(1, kappa/10), the power-iteration estimate max_eigen_value relative 1e-3, final_error_ratio (a ratio of rounding-level errors) only recorded; int16 payloads of quantized "
         "leaves may differ by one unit (rounding boundary, counted; it excuses the owning parameter from that step on, like a branch flip); bitwise equality is recorded per leaf category in the distribution",
         "comparisons whose tolerance exceeds 1e-2 are counted as `weak`",
+        "packed low-rank preconditioners are compared modulo the sign of each stored eigenvector column (v and -v denote the same root; "
+        "a sign flip between two device counts was observed for a well-separated top eigenvector), counted as eigvec_sign_aligned",
         "a Newton branch flip (iteration count / total_retries of a statistic differ between the two runs) excuses, from that step on, "
         "only the leaves of the parameter owning that statistic; it is counted, never reported; eigh kinds have no such branches",
         "per-matrix determinism of XLA across batch sizes is not provable; it is what the executed runs decide",
